@@ -1,0 +1,61 @@
+//go:build verif
+
+package synchronization
+
+// Contracts for session configuration (property C37) and related session
+// logic. Comment-only file: compiled only under the "verif" build tag,
+// contains no code. The "//@" lines are read by /verif/govc.
+
+// Configuration objects are built once (by decoding or MergeConfigurations)
+// and never written afterwards.
+//@ immutable Configuration
+
+//@ pred execBits(m) = (m / 64) % 2 == 1 || (m / 8) % 2 == 1 || m % 2 == 1
+
+// Validation: the sentence of C37 about executable bits, for the effective
+// (merged, endpointSpecific == false) configuration an endpoint runs with.
+//@ func (*Configuration).EnsureValid
+//@   inline
+//@   ensures[nilcfg] c == nil ==> result != nil
+//@   ensures[noexec] result == nil && !endpointSpecific ==> !((c.PermissionsMode.IsDefault() || c.PermissionsMode == core.PermissionsMode_PermissionsModePortable) && execBits(c.DefaultFileMode))
+//@   ensures[modebits] result == nil ==> c.DefaultFileMode < 512 && c.DefaultDirectoryMode < 512
+//@   ensures[endpoint] result == nil && endpointSpecific ==> c.SynchronizationMode.IsDefault() && c.PermissionsMode.IsDefault() && c.SymbolicLinkMode.IsDefault() && c.IgnoreSyntax.IsDefault() && c.IgnoreVCSMode.IsDefault() && c.HashingAlgorithm.IsDefault() && len(c.Ignores) == 0 && len(c.DefaultIgnores) == 0
+//@   modifies
+
+// Merging: endpoint-specific (higher) values override session-wide (lower)
+// ones field by field; ignore lists are concatenated lower first.
+//@ func MergeConfigurations
+//@   requires lower != nil && higher != nil
+//@   fresh result
+//@   ensures[override] result.SynchronizationMode == (higher.SynchronizationMode.IsDefault() ? lower.SynchronizationMode : higher.SynchronizationMode)
+//@   ensures[override] result.HashingAlgorithm == (higher.HashingAlgorithm.IsDefault() ? lower.HashingAlgorithm : higher.HashingAlgorithm)
+//@   ensures[override] result.ProbeMode == (higher.ProbeMode.IsDefault() ? lower.ProbeMode : higher.ProbeMode)
+//@   ensures[override] result.ScanMode == (higher.ScanMode.IsDefault() ? lower.ScanMode : higher.ScanMode)
+//@   ensures[override] result.StageMode == (higher.StageMode.IsDefault() ? lower.StageMode : higher.StageMode)
+//@   ensures[override] result.SymbolicLinkMode == (higher.SymbolicLinkMode.IsDefault() ? lower.SymbolicLinkMode : higher.SymbolicLinkMode)
+//@   ensures[override] result.WatchMode == (higher.WatchMode.IsDefault() ? lower.WatchMode : higher.WatchMode)
+//@   ensures[override] result.IgnoreSyntax == (higher.IgnoreSyntax.IsDefault() ? lower.IgnoreSyntax : higher.IgnoreSyntax)
+//@   ensures[override] result.IgnoreVCSMode == (higher.IgnoreVCSMode.IsDefault() ? lower.IgnoreVCSMode : higher.IgnoreVCSMode)
+//@   ensures[override] result.PermissionsMode == (higher.PermissionsMode.IsDefault() ? lower.PermissionsMode : higher.PermissionsMode)
+//@   ensures[override] result.CompressionAlgorithm == (higher.CompressionAlgorithm.IsDefault() ? lower.CompressionAlgorithm : higher.CompressionAlgorithm)
+//@   ensures[override] result.MaximumEntryCount == (higher.MaximumEntryCount == 0 ? lower.MaximumEntryCount : higher.MaximumEntryCount)
+//@   ensures[override] result.MaximumStagingFileSize == (higher.MaximumStagingFileSize == 0 ? lower.MaximumStagingFileSize : higher.MaximumStagingFileSize)
+//@   ensures[override] result.WatchPollingInterval == (higher.WatchPollingInterval == 0 ? lower.WatchPollingInterval : higher.WatchPollingInterval)
+//@   ensures[override] result.DefaultFileMode == (higher.DefaultFileMode == 0 ? lower.DefaultFileMode : higher.DefaultFileMode)
+//@   ensures[override] result.DefaultDirectoryMode == (higher.DefaultDirectoryMode == 0 ? lower.DefaultDirectoryMode : higher.DefaultDirectoryMode)
+//@   ensures[override] result.DefaultOwner == (higher.DefaultOwner == "" ? lower.DefaultOwner : higher.DefaultOwner)
+//@   ensures[override] result.DefaultGroup == (higher.DefaultGroup == "" ? lower.DefaultGroup : higher.DefaultGroup)
+//@   ensures[concat] len(result.Ignores) == len(lower.Ignores) + len(higher.Ignores)
+//@   ensures[concat] forall i in 0..len(lower.Ignores) :: result.Ignores[i] == lower.Ignores[i]
+//@   ensures[concat] forall i in 0..len(higher.Ignores) :: result.Ignores[len(lower.Ignores) + i] == higher.Ignores[i]
+//@   ensures[concat] len(result.DefaultIgnores) == len(lower.DefaultIgnores) + len(higher.DefaultIgnores)
+//@   ensures[concat] forall i in 0..len(lower.DefaultIgnores) :: result.DefaultIgnores[i] == lower.DefaultIgnores[i]
+//@   ensures[concat] forall i in 0..len(higher.DefaultIgnores) :: result.DefaultIgnores[len(lower.DefaultIgnores) + i] == higher.DefaultIgnores[i]
+
+// Session creation: a session is created only with effective endpoint
+// configurations that the validation run by endpoint initialisation accepts.
+//@ func newSession
+//@   requires configuration != nil && configurationAlpha != nil && configurationBeta != nil
+//@   ensures[effective] result1 == nil ==> mergedAlphaConfiguration.EnsureValid(false) == nil && mergedBetaConfiguration.EnsureValid(false) == nil
+//@   at call connect#1 assert[effective] arg6 == mergedAlphaConfiguration
+//@   at call connect#2 assert[effective] arg6 == mergedBetaConfiguration
